@@ -450,6 +450,8 @@ func valueFor(name, vt, cls string, wild bool) interface{} {
 		return obj{}
 	case "emptyArr":
 		return []interface{}{}
+	case "xdashStr":
+		return "x-y"
 	}
 	switch vt {
 	case "str":
@@ -493,6 +495,16 @@ func valueFor(name, vt, cls string, wild bool) interface{} {
 		return strSchema()
 	case "map:schemaOrStrings":
 		switch cls {
+		case "depEmptyList":
+			return obj{"a": []interface{}{}, "b": []interface{}{"c"}}
+		case "depNull":
+			return obj{"a": nil}
+		case "depNumber":
+			return obj{"a": 1}
+		case "depString":
+			return obj{"a": "s"}
+		case "depEmptyObj":
+			return obj{"a": obj{}}
 		case "depStrs":
 			return obj{mapKey(1, "dep"): []interface{}{"b", "c"}}
 		case "depBoth":
